@@ -283,3 +283,15 @@ def c23(ctx):
                 "gf_factor, gf_zassenhaus and gf_shoup (three runs each) against their contracts: product, monic "
                 "irreducible (no monic divisor of degree <= deg/2, by exhaustive search) distinct factors")
     simple(ctx, "MC_C23", "Trace_C23", floor=0.9)
+
+
+@plan("C24")
+def c24(ctx):
+    ctx.rule = ("TLC enumerates all 2x2 matrices over {-2..2} and over {-1,0,1,1/2}, a seeded set of 3x3 matrices over "
+                "{-1,0,1,2}, all symmetric 3x3 matrices of a positive-definite-biased family and hand-picked zero-pivot / "
+                "rank-deficient / complex ones; every determinant algorithm, inverse algorithm, solver, LU, LDL, QR, "
+                "Cholesky, RREF, rank, characteristic polynomial, transpose, product, sum and row/column operations are "
+                "replayed and validated against module Mat: Laplace determinant, unique exact RREF, and multiply-back "
+                "contracts (A*inv = I, A*x = b, L*U = A, L*D*L^T = A, Q*R = A with Q^T*Q = I, L*L^T = A) evaluated "
+                "in the exact/modular value domain")
+    simple(ctx, "MC_C24", "Trace_C24", floor=0.9)
